@@ -108,7 +108,8 @@ def louvainLoop (kernel : Nat â†’ Nat â†’ List Int Ã— Bool) (nAgg : Int) :
   | 0, _, _, _ => pure none
   | fuel+1, count, n, m => do
     let count := count + 1
-    let (raw, incStop) := kernel count n
+    let raw := (kernel count n).1
+    let incStop := (kernel count n).2
     let labels := inverse raw                       -- _, labels = np.unique(labels, return_inverse=True)
     let mm â† getMembership (labels.map Int.ofNat) none
     let m' â† dot m mm                               -- membership.dot(get_membership(labels))
@@ -132,7 +133,8 @@ def leidenLoop (kernel : Nat â†’ List Nat â†’ List Int Ã— Bool) (refine : Nat â†
   | 0, _, _, _ => pure none
   | fuel+1, count, labels, m => do
     let count := count + 1
-    let (raw, incStop) := kernel count labels
+    let raw := (kernel count labels).1
+    let incStop := (kernel count labels).2
     let labels := inverse raw
     let labelsOriginal := labels
     let labelsRefined := inverse (refine count labels)
